@@ -21,6 +21,49 @@ theorem replaceFirst_prepare (p : Entry → Bool) (u : Raw) (rs : List Raw) :
       rw [ih']
       cases Spec.replaceFirstRaw (fun r => p (normalize r)) u rs <;> simp [prepare]
 
+theorem lower_ne_strA (s : Bytes) : lower s ≠ strA ∧ lower s ≠ strAAAA := by
+  have h65 : ∀ b ∈ lower s, b ≠ 65 := by
+    intro b hb
+    unfold lower at hb
+    obtain ⟨c, _, rfl⟩ := List.mem_map.mp hb
+    unfold lowerB isUpperB
+    by_cases h1 : 65 ≤ c <;> by_cases h2 : c ≤ 90 <;> simp [h1, h2] <;> omega
+  constructor
+  · intro h; exact h65 65 (by rw [h]; simp [strA]) rfl
+  · intro h; exact h65 65 (by rw [h]; simp [strAAAA]) rfl
+
+/-- Reading a normalized entry back from the saved configuration gives the same entry. -/
+theorem normalize_reraw (r : Raw) : normalize (reraw (normalize r)) = normalize r := by
+  by_cases h4 : r.answer = strAAAA
+  · have e : normalize r = ⟨lower r.domain, r.answer, .AAAA, none⟩ := by simp [normalize, h4]
+    rw [e]
+    simp [normalize, reraw, h4, lower_idem]
+  · by_cases h1 : r.answer = strA
+    · have e : normalize r = ⟨lower r.domain, r.answer, .A, none⟩ := by
+        simp [normalize, h1, strA, strAAAA]
+      rw [e]
+      simp [normalize, reraw, h1, lower_idem, strA, strAAAA]
+    · cases hp : r.parsed with
+      | none =>
+        have e : normalize r = ⟨lower r.domain, lower r.answer, .CNAME, none⟩ := by
+          simp [normalize, h4, h1, hp]
+        have := lower_ne_strA r.answer
+        rw [e]
+        simp [normalize, reraw, this.1, this.2, lower_idem]
+      | some pr =>
+        obtain ⟨is4, ip⟩ := pr
+        have e : normalize r = ⟨lower r.domain, r.answer, if is4 then .A else .AAAA, some ip⟩ := by
+          simp [normalize, h4, h1, hp]
+        rw [e]
+        cases is4 <;> simp [normalize, reraw, h4, h1, lower_idem]
+
+theorem reload_prepare (rs : List Raw) : prepare ((prepare rs).map reraw) = prepare rs := by
+  unfold prepare
+  rw [List.map_map, List.map_map]
+  apply List.map_congr_left
+  intro r _
+  exact normalize_reraw r
+
 theorem stepTable_prepare (rs : List Raw) (op : TableOp) :
     (stepTable (prepare rs) op).1 = prepare (Spec.editRaws rs op) := by
   cases op with
@@ -33,6 +76,8 @@ theorem stepTable_prepare (rs : List Raw) (op : TableOp) :
     simp only [stepTable, Spec.editRaws]
     rw [replaceFirst_prepare]
     cases Spec.replaceFirstRaw (fun r => sameKey td ta (normalize r)) u rs <;> simp
+  | reload => exact reload_prepare rs
+  | bad => rfl
 
 theorem runTable_prepare (rs : List Raw) (ops : List TableOp) :
     runTable (prepare rs) ops = prepare (ops.foldl Spec.editRaws rs) := by
@@ -42,5 +87,32 @@ theorem runTable_prepare (rs : List Raw) (ops : List TableOp) :
   | cons op ops ih =>
     simp only [List.foldl_cons]
     rw [stepTable_prepare, ih]
+
+/-- `replaceFirst` replaces the first element satisfying `p`, in place. -/
+theorem replaceFirst_spec (p : Entry → Bool) (n : Entry) (l : List Entry) :
+    (∃ pre e post, l = pre ++ e :: post ∧ p e = true ∧ (∀ x ∈ pre, p x = false) ∧
+        replaceFirst p n l = some (pre ++ n :: post)) ∨
+    ((∀ x ∈ l, p x = false) ∧ replaceFirst p n l = none) := by
+  induction l with
+  | nil => right; simp [replaceFirst]
+  | cons x xs ih =>
+    by_cases hx : p x = true
+    · left
+      exact ⟨[], x, xs, rfl, hx, by simp, by simp [replaceFirst, hx]⟩
+    · have hxf : p x = false := by simpa using hx
+      rcases ih with ⟨pre, e, post, h1, h2, h3, h4⟩ | ⟨h1, h2⟩
+      · left
+        refine ⟨x :: pre, e, post, by rw [h1]; rfl, h2, ?_, ?_⟩
+        · intro y hy
+          rcases List.mem_cons.mp hy with rfl | hy
+          · exact hxf
+          · exact h3 y hy
+        · simp [replaceFirst, hxf, h4]
+      · right
+        refine ⟨?_, by simp [replaceFirst, hxf, h2]⟩
+        intro y hy
+        rcases List.mem_cons.mp hy with rfl | hy
+        · exact hxf
+        · exact h1 y hy
 
 end AGH.C06
